@@ -121,7 +121,10 @@ class FileDumper(DumperBase):
         # Finalise
         filename = temp_file.name
         temp_file.close()
-        self.write_file_to_output(filename, resource.res.source)
+        path = resource_descriptor.get('path')
+        if not isinstance(path, str):
+            path = resource.res.source
+        self.write_file_to_output(filename, path)
         os.unlink(filename)
 
     def process_resource(self, resource: ResourceWrapper):
